@@ -13,7 +13,8 @@ pub const KSZ_TINY: u32 = 1;
 pub const KSZ_SMALL: u32 = 2;
 pub const KSZ_FEWWEIGHTS: u32 = 3; // few distinct weights => heavy re-convergence
 pub const KSZ_MEDIUM: u32 = 4; // 12..20 items
-pub const KSZ_LARGE: u32 = 5; // 24..36 items
+pub const KSZ_LARGE: u32 = 5; // 28..44 items
+pub const KSZ_LARGE_FEW: u32 = 6; // 28..44 items, weights in {1,2,3}: heavy re-convergence, many stale duplicates on a simple fringe
 
 #[derive(Clone, PartialEq, Eq, Hash, Debug)]
 pub struct KState { pub depth: usize, pub cap: usize }
@@ -52,10 +53,10 @@ impl KInst {
             (n, cap, profit, weight)
         } else {
             let mut rng = Rng::derive(seed, &[0x4B, size as u64]);
-            let n = match size { KSZ_TINY => rng.range(3, 6), KSZ_SMALL => rng.range(6, 12), KSZ_MEDIUM => rng.range(12, 20), KSZ_LARGE => rng.range(28, 44), _ => rng.range(6, 10) } as usize;
-            let wmax = if size == KSZ_FEWWEIGHTS { 2 } else { 9 };
+            let n = match size { KSZ_TINY => rng.range(3, 6), KSZ_SMALL => rng.range(6, 12), KSZ_MEDIUM => rng.range(12, 20), KSZ_LARGE | KSZ_LARGE_FEW => rng.range(28, 44), _ => rng.range(6, 10) } as usize;
+            let wmax = if size == KSZ_FEWWEIGHTS { 2 } else if size == KSZ_LARGE_FEW { 3 } else { 9 };
             let weight: Vec<usize> = (0..n).map(|_| rng.range(1, wmax) as usize).collect();
-            let profit: Vec<isize> = (0..n).map(|_| rng.range(1, if size == KSZ_FEWWEIGHTS { 4 } else { 12 }) as isize).collect();
+            let profit: Vec<isize> = (0..n).map(|_| rng.range(1, if size == KSZ_FEWWEIGHTS || size == KSZ_LARGE_FEW { 4 } else { 12 }) as isize).collect();
             let tot: usize = weight.iter().sum();
             let cap = rng.range(1, (tot as i64 * 2 / 3).max(1)) as usize;
             (n, cap, profit, weight)
